@@ -70,6 +70,21 @@ def pregen_rbtreego(work):
     return None
 
 
+def pregen_linkedlistgo(work):
+    """Ekit/Generated/LinkedListGo.lean: list/linked_list.go as terms of the second MiniGo instance (harness/minigoll);
+    the C04 pointer-level theorems of the regenerated linked list are about the interpreter running this output."""
+    binp, blog = work.build("minigoll")
+    if binp is None:
+        return "Go->MiniGo(LL) translator does not build: " + blog
+    out = os.path.join(core.LEAN, "Ekit", "Generated", "LinkedListGo.lean")
+    tmp = os.path.join(work.dir, "LinkedListGo.lean")
+    rc, log = core.sh([binp, "-root", work.repo, "-out", tmp], env=core.GOENV, timeout=120)
+    if rc != 0:
+        return "Go->MiniGo(LL) translator failed (list/linked_list.go left the translated subset): " + log
+    core.write_if_changed(out, open(tmp).read())
+    return None
+
+
 def lean_obligations(res, pid, extra_targets=()):
     """lake build of the property module + axiom audit + forbidden-token grep.
     Returns True iff every proof obligation of `pid` is discharged."""
